@@ -79,9 +79,11 @@ Print Assumptions C15_first_free_admissible.
    release, the two restore branches and late completion of dataplane deletes, and every event carries the outcome
    of its southbound calls (add ok/failed, each delete ok/failed, bulk reprogram ok / per-mapping error / transport
    error): the statement holds for every fault pattern, i.e. the reverse index follows the pool, not the dataplane
-   outcome. *)
+   outcome.  Hypothesis [forallb sync_op ops]: the outcome of every dataplane ADD is delivered before the next event.
+   Without it the statement is false of the code (C15_late_completion_refuted, recorded finding
+   late-add-completion); the pool statements need no such hypothesis (C15_component_pool_properties). *)
 Theorem C15_reverse_lookup_exact :
-  forall r p0 ops, wf_range r -> configure repaired r = Some p0 ->
+  forall r p0 ops, wf_range r -> configure repaired r = Some p0 -> forallb sync_op ops = true ->
   forall ip port,
   match rev_lookup (cp_rev (crun repaired (effective r) (comp_init p0) ops)) ip port with
   | Some m => In (m_blk m) (blocks_of (cp_pool (crun repaired (effective r) (comp_init p0) ops)) (m_sub m)) /\
@@ -94,7 +96,9 @@ Theorem C15_reverse_lookup_exact :
 Proof. exact reverse_lookup_exact. Qed.
 Print Assumptions C15_reverse_lookup_exact.
 
-(* the pool inside the component: disjoint, in range / aligned / not excluded, limit, pairing *)
+(* the pool inside the component: disjoint, in range / aligned / not excluded, limit, pairing -- for EVERY component
+   history, dataplane adds completing late and in any order included (the component only ever performs pool
+   operations: Proofs.crun_refines) *)
 Theorem C15_component_pool_properties :
   forall r p0 ops, wf_range r -> configure repaired r = Some p0 ->
   let c := effective r in
@@ -108,8 +112,33 @@ Theorem C15_component_pool_properties :
   (forall k, N.of_nat (length (blocks_of (cp_pool s) k)) <= c_max c) /\
   (c_paired c = true -> forall k b1 b2, In b1 (blocks_of (cp_pool s) k) -> In b2 (blocks_of (cp_pool s) k) ->
      b_ip b1 = b_ip b2).
-Proof. exact comp_pool_props. Qed.
+Proof. exact comp_pool_props_all. Qed.
 Print Assumptions C15_component_pool_properties.
+
+(* the component only ever performs pool operations: its pool is the result of some pool-level history *)
+Theorem C15_component_refines_pool :
+  forall v c ops s, exists pops, cp_pool (crun v c s ops) = run v c (cp_pool s) pops.
+Proof. exact crun_refines. Qed.
+Print Assumptions C15_component_refines_pool.
+
+(* A subscriber is (inside VRF, inside address) -- the number k encodes both.  An activation that reports a block
+   has given that block to this very subscriber; with C15_component_pool_properties, two different subscribers (the
+   same inside address in two VRFs included) are never told overlapping blocks. *)
+Theorem C15_activation_grants_own_block :
+  forall c s sid k obs s' nw b,
+  cstep repaired c s (CActivate sid k true obs) = (s', RBlock nw b) -> In b (blocks_of (cp_pool s') k).
+Proof. exact activation_grants_own_block. Qed.
+Print Assumptions C15_activation_grants_own_block.
+
+(* several pools on one PoolManager, configuration accepted by Config.Validate (no outside address in two pools):
+   two holders that differ in pool or in subscriber never overlap *)
+Theorem C15_disjoint_across_pools :
+  forall rs ps ops, (forall r, In r rs -> wf_range r) -> mconfigure repaired rs = Some ps ->
+  forall i j k1 k2 b1 b2, (i <> j \/ k1 <> k2) ->
+    In b1 (mblocks (mrun repaired ps ops) i k1) -> In b2 (mblocks (mrun repaired ps ops) j k2) ->
+    b_ip b1 = b_ip b2 -> b_end b1 < b_start b2 \/ b_end b2 < b_start b1.
+Proof. exact mdisjoint. Qed.
+Print Assumptions C15_disjoint_across_pools.
 
 (* ---- what the unchanged code violates (variant [defective] = the code as it is today) ---- *)
 
@@ -153,7 +182,8 @@ Print Assumptions C15_duplicate_address_refuted.
    the reverse entry that the earlier (degraded) restore created; port 1040 still names subscriber 2, who holds
    nothing.  Only the rollback repair is missing in this variant. *)
 Definition only_rollback_missing : variant :=
-  {| v_validate := true; v_replace := true; v_dedup := true; v_rollback := false |}.
+  {| v_validate := true; v_replace := true; v_dedup := true; v_rollback := false; v_vrfkey := true; v_xpool := true;
+     v_late := true |}.
 Theorem C15_synced_rollback_refuted :
   exists ops m, let s := crun only_rollback_missing (effective ex_raw1) (comp_init (pool_of repaired ex_raw1)) ops in
     rev_lookup (cp_rev s) 1681915905 1040 = Some m /\ m_sub m = 2 /\ blocks_of (cp_pool s) 2 = [].
@@ -163,6 +193,60 @@ Proof.
   eexists. vm_compute. repeat split.
 Qed.
 Print Assumptions C15_synced_rollback_refuted.
+
+(* ---- open findings on /repo HEAD ---- *)
+Definition with_flags (vrf xp late : bool) : variant :=
+  {| v_validate := true; v_replace := true; v_dedup := true; v_rollback := true; v_vrfkey := vrf; v_xpool := xp;
+     v_late := late |}.
+
+(* The component passes inside VRF 0 for every session: subscriber 5 (VRF 0, 10.0.0.5) and subscriber 65541
+   (VRF 1, 10.0.0.5) are told the same block; when the first leaves, the second is left with a mapping the pool has
+   already freed. *)
+Theorem C15_vrf_sharing_refuted :
+  let v := with_flags false true true in
+  let c := effective ex_raw1 in
+  let s0 := comp_init (pool_of v ex_raw1) in
+  exists b, snd (cstep v c s0 (CActivate 1 5 true None)) = RBlock true b /\
+            snd (cstep v c (fst (cstep v c s0 (CActivate 1 5 true None))) (CActivate 2 65541 true None)) = RBlock false b /\
+            let s := crun v c s0 [CActivate 1 5 true None; CActivate 2 65541 true None; CRelease 1 5 []] in
+            cp_sess s = [2] /\ blocks_of (cp_pool s) 5 = [] /\ blocks_of (cp_pool s) 65541 = [].
+Proof. eexists. vm_compute. repeat split. Qed.
+Print Assumptions C15_vrf_sharing_refuted.
+
+(* Two pools listing 100.64.0.1 are both accepted: subscriber 1 of pool 0 and subscriber 2 of pool 1 hold the same
+   (address, port) block. *)
+Definition ex_raw_p2 : rawcfg :=
+  {| r_bs := 64; r_ratio := 0; r_range := Some (1024, 1151); r_max := 1; r_pooling := 1;
+     r_outside := [OCidr 1681915904 30]; r_excluded := [1681915904] |}.
+Theorem C15_pool_overlap_refuted :
+  let v := with_flags true false true in
+  exists ps b, mconfigure v [ex_raw_p2; ex_raw_dup] = Some ps /\
+    let ps' := mrun v ps [(0%nat, OAlloc 1 None); (1%nat, OAlloc 2 None)] in
+    In b (mblocks ps' 0 1) /\ In b (mblocks ps' 1 2).
+Proof. eexists. exists {| b_ip := 1681915905; b_start := 1024; b_end := 1087 |}. vm_compute. repeat split; left; reflexivity. Qed.
+Print Assumptions C15_pool_overlap_refuted.
+
+(* Late completion of a dataplane add (variant = HEAD with the two fixes above).
+   Schedule 1: the session is released while its add is in flight -- the release finds no committed mapping and does
+   nothing, the completion then commits: the departed subscriber keeps its block and its session entry for ever.
+   Schedule 2: a second session on the same subscriber key commits and releases the block, another subscriber is
+   given it, then the first add completes: Lookup names subscriber 5 for a block subscriber 6 holds. *)
+Theorem C15_late_completion_refuted :
+  let v := with_flags true true false in
+  let c := effective ex_raw1 in
+  let s0 := comp_init (pool_of v ex_raw1) in
+  (let s := crun v c s0 [CActivateLate 1 5 None; CRelease 1 5 []; CAddComplete 1 true] in
+   cp_sess s = [1] /\ blocks_of (cp_pool s) 5 <> []) /\
+  (let s := crun v c s0 [CActivateLate 1 5 None; CActivate 2 5 true None; CRelease 2 5 []; CActivate 3 6 true None;
+                         CAddComplete 1 true] in
+   exists m, rev_lookup (cp_rev s) 1681915905 1024 = Some m /\ m_sub m = 5 /\
+             blocks_of (cp_pool s) 5 = [] /\ In (m_blk m) (blocks_of (cp_pool s) 6)).
+Proof.
+  vm_compute. split.
+  - split; [reflexivity|discriminate].
+  - eexists. repeat split. left; reflexivity.
+Qed.
+Print Assumptions C15_late_completion_refuted.
 
 (* non-vacuity of the hypotheses: the same geometry, a history with allocations by two subscribers, a release, a
    valid restore and a refused (unaligned) restore, run on the repaired model *)
